@@ -3,6 +3,16 @@
 import json
 ALL = ["C%02d" % i for i in range(1, 21)]
 CHECKS = {
+ "C05": dict(
+   technique="bounded-exhaustive enumeration of policy texts (every operator nesting parent x position x child, depth-3 chains, literal/unary-minus corners, all strings <=2 over a 15-char content alphabet in every string position, policy-level grid) in 3 parenthesisation/escape styles; each parsed, printed, re-parsed by the real code and compared structurally (loc-free abstraction) and semantically (reference evaluator)",
+   text="Model checking in the small-scope sense: the full finite space of programs below the bound is enumerated; for each the real parser and printer are run (text->AST->Display->AST, and JSON->to_cedar->AST) and the re-parsed object is compared with the first for structural identity, and both are evaluated and compared with the reference evaluator's verdict for the generator's term. Right level: printing decides parentheses/escapes by case analysis over the AST, and a missing case only shows for particular nestings - which bounded-exhaustive nesting enumeration covers completely.",
+   note="Trusted base: refsem printer (emits grammar-valid text), bind::abs_policy, reference evaluator. Bounds: 44 constructors, depth 2 complete, depth-3 chains over 16 (quick) / all (thorough) constructors, content strings of length <=2.",
+   design="§3 C05"),
+ "C06": dict(
+   technique="bounded-exhaustive enumeration of the C05 program set pushed through every conversion direction (CST->EST, AST->EST->JSON->EST->AST, AST<->PST, PST<->EST, API to_json/from_json/to_pst/from_pst, protobuf encode/decode of templates and of policy sets with links, own JSON rendering -> from_json -> to_cedar), compared structurally and by authorization response",
+   text="Model checking in the small-scope sense: every program of the bounded space is converted by the real code in each direction and the result compared with the original by a loc-free structural abstraction (ids, effect, annotations, scope, slots/link bindings, condition) and by its authorization outcome against the reference evaluator. Losslessness is a for-all-programs claim over hand-written structural recursions; enumerating every expression form in every position is what reaches a single mistranslated arm.",
+   note="Trusted base: bind::abs_policy/abs_template, refsem EST renderer and evaluator. Protobuf feature is compiled in by the harness (the baseline suite does not). Protobuf schema/validator messages not covered.",
+   design="§3 C06"),
  "C01": dict(
    technique="bounded-exhaustive enumeration of all ordered policy tuples (effect x outcome atoms, n<=4/5) x construction path x id spelling x entity insertion order x call history (depth 3), each authorized by the real Authorizer and compared with a reference authorizer",
    text="Model checking in the small-scope sense: every ordered tuple of permit/forbid x satisfied/unsatisfied/erroring policies up to the bound, in every construction path, id spelling and insertion order, and every call history of depth<=3 on one Authorizer, is executed on the real authorizer and compared with an independent reference authorizer (decision, reasons, erroring ids). The claim is a for-all over policy sets/orders/histories of a pure function, so exhaustive enumeration of the combinatorial core (3^n x 2^n mixes, tie-breaks between buckets) is the right level.",
